@@ -23,7 +23,8 @@ for p in sorted(glob.glob('/verif/findings/%s/*.json' % prop)):
         s = max(mf, key=len)
         if (prop, v['rule'], k) not in kk:
             what, inp = FIND[s]
-            known.append({"status": "known", "property": prop, "rule": v['rule'], "key": k, "what": what + " — input: " + inp, "input": inp})
+            known.append({"status": "known", "property": prop, "rule": v['rule'], "key": k, "what": what + " — input: " + inp, "input": inp,
+                          "snip": (v.get("detail") or {}).get("snip") if isinstance(v.get("detail"), dict) else None})
             n_f += 1
     elif ma:
         s = max(ma, key=len)
@@ -33,6 +34,8 @@ for p in sorted(glob.glob('/verif/findings/%s/*.json' % prop)):
             tab.setdefault(k, {}).setdefault("by_prop", {})[prop] = {"why": AUD[s]}
         else:
             tab[k] = {"why": AUD[s]}
+        if isinstance(v.get("detail"), dict) and v["detail"].get("snip"):
+            tab[k]["snip"] = v["detail"]["snip"]
         n_a += 1
     else:
         left.append((k, v.get('loc')))
